@@ -235,8 +235,11 @@ def assemble(flavour, cfg, files, active_units, ext_out, auto_weak=()):
         s = ln.strip()
         if s.startswith('// @UNIT '):
             _, _, rest = s.partition('// @UNIT ')
-            uid, _, src = rest.partition(' ')
-            u = {'id': uid, 'src': src, 'start': i, 'end': None}
+            parts = rest.split()
+            uid = parts[0]
+            src = parts[1] if len(parts) > 1 else '-'
+            u = {'id': uid, 'src': src, 'start': i, 'end': None,
+                 'props': parts[2].split(',') if len(parts) > 2 else []}
             meta['units'].append(u)
             stack.append(u)
             cur_obl = None
